@@ -229,7 +229,11 @@ func c06next(r *verifhlib.Rng, st *store, cfg c06cfg, bad int) c06op {
 				continue
 			}
 			sz := uint64(r.Range(0, 8))
-			if r.Chance(25) {
+			if cfg.Cap < 100 {
+				// tight capacity: reservations of a quarter to a half of it, so that Creates evict
+				sz = uint64(r.Range(int(cfg.Cap)/4, int(cfg.Cap)/2+1))
+			}
+			if r.Chance(20) {
 				sz = []uint64{0, 1, cfg.Cap / 2, cfg.Cap/2 + 1, cfg.Cap}[r.Intn(5)]
 			}
 			if sz > 12 {
@@ -251,7 +255,7 @@ func c06next(r *verifhlib.Rng, st *store, cfg c06cfg, bad int) c06op {
 				off, n = 0, sz
 			}
 			return c06op{K: c06WriteAt, Key: k, Off: int64(off), Data: r.Bytes(n)}
-		case c < 55:
+		case c < 55 || (cfg.Cap < 100 && c < 65 && len(incomplete) > 0):
 			if len(incomplete) == 0 {
 				continue
 			}
